@@ -33,6 +33,8 @@ def _is_declared_optional(dao_class: type, field_name: str) -> bool:
     :return: True if that class declares the field as Optional.
     """
     try:
+        # from the second hop of a path on, the class is an alias of the DAO class
+        dao_class = sqlalchemy.inspect(dao_class).mapper.class_
         hint = typing.get_type_hints(dao_class.original_class()).get(field_name)
     except Exception:
         return False
